@@ -28,6 +28,8 @@ FILE_REDIRECT_PATTERN = re.compile(
         >>\s*\(                       # >> followed by ( (dynamic append)
         |
         >\s*\$                        # > followed by $ (variable filename)
+        |
+        >>?\s*[A-Za-z_]               # > followed by a name (filename in a variable)
     )
     """,
     re.VERBOSE,
@@ -96,7 +98,9 @@ def classify(ctx: HandlerContext) -> Classification:
     if FILE_REDIRECT_PATTERN.search(program):
         # Extract literal paths that can be checked against redirect rules
         literal_targets = tuple(LITERAL_REDIRECT_PATTERN.findall(program))
-        if literal_targets:
+        # Any redirect left once the literal ones are removed is dynamic
+        without_literals = re.sub(r""">>?\s*["'][^"']+["']""", "", program)
+        if literal_targets and not FILE_REDIRECT_PATTERN.search(without_literals):
             # All redirects are to literal paths - let analyzer check them
             return Classification(
                 "allow",
